@@ -73,39 +73,51 @@ theorem cat_word {G : Grammar} (hP : Productive G) (id : String) : ∀ ns : List
     obtain ⟨w2, h2⟩ := cat_word hP id as h.2
     exact ⟨w1 ++ w2, GM.catCons id a as w1 w2 h1 h2⟩
 
-theorem walkNewWith_rep (ω : String → Walk) (cap : Nat) (id : String) (kind : RepKind) (n : Node)
-    (min : Nat) (max : Option Nat) :
-    walkNewWith ω cap (.rep id kind n min max) =
-      ((walkNewWith ω cap n).1, (walkNewWith ω cap n).2 || decide (min = 0)) := by
-  simp only [walkNewWith]
-  cases h : walkNewWith ω cap n with
-  | mk o c =>
-    cases c with
-    | true => simp
-    | false =>
-      by_cases h0 : min = 0
-      · simp [h0]
-      · have : ¬ (0 ≥ min) := by omega
-        simp [h0, this]
+theorem repHasRoom_zero {max : Option Nat} (hmax : max ≠ some 0) : repHasRoom max 0 = true := by
+  cases max with
+  | none => rfl
+  | some m =>
+    simp only [repHasRoom, decide_eq_true_eq]
+    have : m ≠ 0 := fun h => hmax (by rw [h])
+    omega
 
-theorem walkNewAlt_cons (ω : String → Walk) (cap : Nat) (a : Node) (as : List Node) :
-    walkNewAlt ω cap (a :: as) =
-      ((walkNewWith ω cap a).1 ++ (walkNewAlt ω cap as).1,
-       (walkNewWith ω cap a).2 || (walkNewAlt ω cap as).2) := by
+theorem walkRepCore_zero (min : Nat) {max : Option Nat} (hmax : max ≠ some 0) (fresh : Walk) :
+    walkRepCore min max 0 ([], true) fresh = (fresh.1, fresh.2 || decide (min = 0)) := by
+  obtain ⟨o, c⟩ := fresh
+  simp only [walkRepCore, repHasRoom_zero hmax]
+  cases c with
+  | true => simp
+  | false =>
+    by_cases h0 : min = 0
+    · simp [h0]
+    · have : ¬ (0 ≥ min) := by omega
+      simp [h0, this]
+
+theorem walkNewWith_rep (ω : String → Walk) (id : String) (kind : RepKind) (n : Node)
+    (min : Nat) (max : Option Nat) (hmax : max ≠ some 0) :
+    walkNewWith ω (.rep id kind n min max) =
+      ((walkNewWith ω n).1, (walkNewWith ω n).2 || decide (min = 0)) := by
+  simp only [walkNewWith]
+  exact walkRepCore_zero min hmax _
+
+theorem walkNewAlt_cons (ω : String → Walk) (a : Node) (as : List Node) :
+    walkNewAlt ω (a :: as) =
+      ((walkNewWith ω a).1 ++ (walkNewAlt ω as).1,
+       (walkNewWith ω a).2 || (walkNewAlt ω as).2) := by
   simp only [walkNewAlt]
 
-theorem walkNewCat_cons (ω : String → Walk) (cap : Nat) (a : Node) (as : List Node) :
-    walkNewCat ω cap (a :: as) =
-      if (walkNewWith ω cap a).2 then
-        ((walkNewWith ω cap a).1 ++ (walkNewCat ω cap as).1, (walkNewCat ω cap as).2)
-      else ((walkNewWith ω cap a).1, false) := by
+theorem walkNewCat_cons (ω : String → Walk) (a : Node) (as : List Node) :
+    walkNewCat ω (a :: as) =
+      if (walkNewWith ω a).2 then
+        ((walkNewWith ω a).1 ++ (walkNewCat ω as).1, (walkNewCat ω as).2)
+      else ((walkNewWith ω a).1, false) := by
   simp only [walkNewCat]
 
 mutual
-theorem walkNewWith_ok (G : Grammar) (hP : Productive G) (ω : String → Walk) (cap : Nat) :
+theorem walkNewWith_ok (G : Grammar) (hP : Productive G) (ω : String → Walk) :
     ∀ n : Node, (∀ name, name ∈ heads n → WalkNt G ω name) → walkOk G n = true →
-    (∀ m, m ∈ (walkNewWith ω cap n).1 ↔ ∃ w, GM G n (m :: w)) ∧
-    ((walkNewWith ω cap n).2 = true ↔ GM G n [])
+    (∀ m, m ∈ (walkNewWith ω n).1 ↔ ∃ w, GM G n (m :: w)) ∧
+    ((walkNewWith ω n).2 = true ↔ GM G n [])
   | .term t, _, _ => by
     simp only [walkNewWith]
     refine ⟨fun m => ?_, ?_⟩
@@ -137,7 +149,7 @@ theorem walkNewWith_ok (G : Grammar) (hP : Productive G) (ω : String → Walk) 
       · rw [this.2]; exact GM_nt_recipient none r
   | .alt id ns, hω, hk => by
     simp only [walkOk] at hk
-    have := walkNewAlt_ok G hP ω cap ns (by simpa [heads] using hω) hk
+    have := walkNewAlt_ok G hP ω ns (by simpa [heads] using hω) hk
     simp only [walkNewWith, GM_alt_iff]
     refine ⟨fun m => ?_, this.2⟩
     rw [this.1 m]
@@ -146,14 +158,14 @@ theorem walkNewWith_ok (G : Grammar) (hP : Productive G) (ω : String → Walk) 
     · rintro ⟨w, n, hn, h⟩; exact ⟨n, hn, w, h⟩
   | .cat id ns, hω, hk => by
     simp only [walkOk] at hk
-    have := walkNewCat_ok G hP ω cap ns id (by simpa [heads] using hω) hk
+    have := walkNewCat_ok G hP ω ns id (by simpa [heads] using hω) hk
     simp only [walkNewWith]
     exact this
   | .rep id kind n min max, hω, hk => by
     simp only [walkOk, Bool.and_eq_true, bne_iff_ne, ne_eq] at hk
     obtain ⟨⟨hb, hmax⟩, hkn⟩ := hk
-    have ih := walkNewWith_ok G hP ω cap n (by simpa [heads] using hω) hkn
-    rw [walkNewWith_rep]
+    have ih := walkNewWith_ok G hP ω n (by simpa [heads] using hω) hkn
+    rw [walkNewWith_rep ω id kind n min max hmax]
     constructor
     · intro m
       rw [ih.1 m]
@@ -180,15 +192,15 @@ theorem walkNewWith_ok (G : Grammar) (hP : Productive G) (ω : String → Walk) 
       · rintro ⟨_, h | h⟩
         · exact Or.inr h
         · exact Or.inl h
-theorem walkNewAlt_ok (G : Grammar) (hP : Productive G) (ω : String → Walk) (cap : Nat) :
+theorem walkNewAlt_ok (G : Grammar) (hP : Productive G) (ω : String → Walk) :
     ∀ ns : List Node, (∀ name, name ∈ headsAlt ns → WalkNt G ω name) → walkOkAlt G ns = true →
-    (∀ m, m ∈ (walkNewAlt ω cap ns).1 ↔ ∃ n, n ∈ ns ∧ ∃ w, GM G n (m :: w)) ∧
-    ((walkNewAlt ω cap ns).2 = true ↔ ∃ n, n ∈ ns ∧ GM G n [])
+    (∀ m, m ∈ (walkNewAlt ω ns).1 ↔ ∃ n, n ∈ ns ∧ ∃ w, GM G n (m :: w)) ∧
+    ((walkNewAlt ω ns).2 = true ↔ ∃ n, n ∈ ns ∧ GM G n [])
   | [], _, _ => by simp [walkNewAlt]
   | a :: as, hω, hk => by
     simp only [walkOkAlt, Bool.and_eq_true] at hk
-    have h1 := walkNewWith_ok G hP ω cap a (fun name hm => hω name (by simp [headsAlt, hm])) hk.1
-    have h2 := walkNewAlt_ok G hP ω cap as (fun name hm => hω name (by simp [headsAlt, hm])) hk.2
+    have h1 := walkNewWith_ok G hP ω a (fun name hm => hω name (by simp [headsAlt, hm])) hk.1
+    have h2 := walkNewAlt_ok G hP ω as (fun name hm => hω name (by simp [headsAlt, hm])) hk.2
     rw [walkNewAlt_cons]
     constructor
     · intro m
@@ -208,11 +220,11 @@ theorem walkNewAlt_ok (G : Grammar) (hP : Productive G) (ω : String → Walk) (
       · rintro ⟨n, rfl | hn, h⟩
         · exact Or.inl h
         · exact Or.inr ⟨n, hn, h⟩
-theorem walkNewCat_ok (G : Grammar) (hP : Productive G) (ω : String → Walk) (cap : Nat) :
+theorem walkNewCat_ok (G : Grammar) (hP : Productive G) (ω : String → Walk) :
     ∀ (ns : List Node) (id : String), (∀ name, name ∈ headsCat ns → WalkNt G ω name) →
     walkOkCat G ns = true →
-    (∀ m, m ∈ (walkNewCat ω cap ns).1 ↔ ∃ w, GM G (.cat id ns) (m :: w)) ∧
-    ((walkNewCat ω cap ns).2 = true ↔ GM G (.cat id ns) [])
+    (∀ m, m ∈ (walkNewCat ω ns).1 ↔ ∃ w, GM G (.cat id ns) (m :: w)) ∧
+    ((walkNewCat ω ns).2 = true ↔ GM G (.cat id ns) [])
   | [], id, _, _ => by
     simp only [walkNewCat, GM_cat_nil_iff]
     simp
@@ -220,18 +232,18 @@ theorem walkNewCat_ok (G : Grammar) (hP : Productive G) (ω : String → Walk) (
     have hk' := hk
     simp only [walkOkCat, Bool.and_eq_true] at hk'
     obtain ⟨⟨hka, _⟩, hkas⟩ := hk'
-    have h1 := walkNewWith_ok G hP ω cap a (fun name hm => hω name (by
+    have h1 := walkNewWith_ok G hP ω a (fun name hm => hω name (by
       by_cases hc : consumes a = true <;> simp [headsCat, hc, hm])) hka
     obtain ⟨wr, hwr⟩ := cat_word hP id as hkas
     rw [walkNewCat_cons]
-    by_cases hc1 : (walkNewWith ω cap a).2 = true
+    by_cases hc1 : (walkNewWith ω a).2 = true
     · -- `a` may be skipped: the walk goes on
       have hnil : GM G a [] := h1.2.1 hc1
       have hcons : consumes a = false := by
         cases hx : consumes a with
         | false => rfl
         | true => exact absurd hnil (consumes_not_nil G a hx)
-      have h2 := walkNewCat_ok G hP ω cap as id (fun name hm => hω name (by simp [headsCat, hcons, hm])) hkas
+      have h2 := walkNewCat_ok G hP ω as id (fun name hm => hω name (by simp [headsCat, hcons, hm])) hkas
       simp only [hc1, if_true]
       constructor
       · intro m
@@ -293,10 +305,14 @@ theorem walkCert_sound {G : Grammar} (h : walkCert G = true) : WalkCert G := by
   have hm := rule_mem hr
   exact (List.all_eq_true.1 h) (name, body) hm
 
+/-- the table of exploring visits is right about every nonterminal whose rank lies below the fuel and below the
+    ranks of the nonterminals whose exploring visit is open (`seen`): under `NoLeftRec` the re-entry guard of
+    `PathFinder.onNonTerminalNodeVisit` never fires -/
 theorem walkNewTab_ok {G : Grammar} {rank : String → Nat} {F : Nat} (hL : NoLeftRec G rank F)
-    (hP : Productive G) (hW : WalkCert G) (cap : Nat) :
-    ∀ f name, (G.rule name = none ∨ rank name < f) → WalkNt G (walkNewTab G cap f) name
-  | 0, name, h => by
+    (hP : Productive G) (hW : WalkCert G) :
+    ∀ f seen name, (∀ s, s ∈ seen → rank name < rank s) → (G.rule name = none ∨ rank name < f) →
+      WalkNt G (walkNewTab G f seen) name
+  | 0, seen, name, _, h => by
     rcases h with h | h
     · refine ⟨fun m => ?_, ?_⟩
       · simp only [walkNewTab]
@@ -308,46 +324,59 @@ theorem walkNewTab_ok {G : Grammar} {rank : String → Nat} {F : Nat} (hL : NoLe
         · intro hm; cases hm
         · intro hw; exact absurd hw (GM_nt_norule h none _)
     · omega
-  | f + 1, name, h => by
+  | f + 1, seen, name, hs, h => by
+    have hns : seen.contains name = false := by
+      cases hc : seen.contains name with
+      | false => rfl
+      | true =>
+        have hm : name ∈ seen := by simpa using hc
+        have := hs name hm
+        omega
     cases hr : G.rule name with
     | none =>
       refine ⟨fun m => ?_, ?_⟩
-      · simp only [walkNewTab, hr]
+      · simp only [walkNewTab, hns, hr]
         constructor
-        · intro hm; cases hm
+        · intro hm; simp at hm
         · rintro ⟨w, hw⟩; exact absurd hw (GM_nt_norule hr none _)
-      · simp only [walkNewTab, hr]
+      · simp only [walkNewTab, hns, hr]
         constructor
-        · intro hm; cases hm
+        · intro hm; simp at hm
         · intro hw; exact absurd hw (GM_nt_norule hr none _)
     | some body =>
       have hrk : rank name < f + 1 := by
         rcases h with h | h
         · simp [hr] at h
         · exact h
-      have key := walkNewWith_ok G hP (walkNewTab G cap f) cap body (by
+      have key := walkNewWith_ok G hP (walkNewTab G f (name :: seen)) body (by
         intro x hx
-        apply walkNewTab_ok hL hP hW cap f x
-        right
-        have := (hL name body hr).2 x hx
-        omega) (hW name body hr)
+        have hlt := (hL name body hr).2 x hx
+        apply walkNewTab_ok hL hP hW f (name :: seen) x
+        · intro s hsm
+          rcases List.mem_cons.1 hsm with rfl | hsm
+          · exact hlt
+          · have := hs s hsm
+            omega
+        · right
+          omega) (hW name body hr)
       refine ⟨fun m => ?_, ?_⟩
-      · simp only [walkNewTab, hr]
+      · simp only [walkNewTab, hns, hr, Bool.false_eq_true, if_false]
         rw [key.1 m]
         constructor
         · rintro ⟨w, hw⟩; exact ⟨w, (GM_nt_rule hr none _).2 hw⟩
         · rintro ⟨w, hw⟩; exact ⟨w, (GM_nt_rule hr none _).1 hw⟩
-      · simp only [walkNewTab, hr]
+      · simp only [walkNewTab, hns, hr, Bool.false_eq_true, if_false]
         rw [key.2]
         exact (GM_nt_rule hr none _).symm
 
 theorem walkNewTab_ok_all {G : Grammar} {rank : String → Nat} {F : Nat} (hL : NoLeftRec G rank F)
-    (hP : Productive G) (hW : WalkCert G) (cap : Nat) (name : String) :
-    WalkNt G (walkNewTab G cap F) name := by
-  apply walkNewTab_ok hL hP hW cap
-  cases hr : G.rule name with
-  | none => exact Or.inl rfl
-  | some body => exact Or.inr (hL name body hr).1
+    (hP : Productive G) (hW : WalkCert G) (name : String) :
+    WalkNt G (walkNewTab G F []) name := by
+  apply walkNewTab_ok hL hP hW
+  · intro s hs; cases hs
+  · cases hr : G.rule name with
+    | none => exact Or.inl rfl
+    | some body => exact Or.inr (hL name body hr).1
 
 end Fc
 end FV
